@@ -1057,6 +1057,33 @@ func c13Run(c *core.Ctx) *core.Result {
 		}
 		rootMeta.Xattrs[xfKey] = xfR.Bytes(5)
 	}
+	// mount points inside the source: two fresh tmpfs instances hand out the
+	// same inode numbers; files of one must not be linked to files of the other
+	if core.NewRand(core.Mix(c.Seed, "C13-mounts", c.Index)).P(1, 40) && src9Free(t) {
+		mounted := []string{}
+		for _, nm := range []string{"zm1", "zm2"} {
+			d := filepath.Join(srcDir, nm)
+			if os.Mkdir(d, 0755) != nil || unix.Mount("tmpfs", d, "tmpfs", 0, "size=1m") != nil {
+				break
+			}
+			mounted = append(mounted, d)
+		}
+		defer func() {
+			for _, d := range mounted {
+				unix.Unmount(d, unix.MNT_DETACH)
+			}
+		}()
+		if len(mounted) == 2 {
+			os.WriteFile(filepath.Join(mounted[0], "a"), []byte("ONE"), 0644)
+			os.Link(filepath.Join(mounted[0], "a"), filepath.Join(mounted[0], "a2"))
+			os.WriteFile(filepath.Join(mounted[0], "c"), []byte("ONE-C"), 0600)
+			os.WriteFile(filepath.Join(mounted[1], "a"), []byte("TWO-TWO"), 0644)
+			os.Link(filepath.Join(mounted[1], "a"), filepath.Join(mounted[1], "b"))
+			os.WriteFile(filepath.Join(mounted[1], "c"), []byte("TWO-C"), 0600)
+			os.Link(filepath.Join(mounted[1], "c"), filepath.Join(mounted[1], "d"))
+			r.Count("sources_with_two_mounted_file_systems", 1)
+		}
+	}
 	if err := tree.ApplyMeta(srcDir, &rootMeta); err != nil {
 		r.Inconclusive = "root metadata: " + err.Error()
 		return r
@@ -1659,3 +1686,6 @@ func c13Run(c *core.Ctx) *core.Result {
 	r.FP = fmt.Sprintf("%s|%s|%s|%s|%s|%v|%o|%s|%d%v|%s", snap.Fingerprint(), p.Variant, p.SrcRel, p.DstForm, p.optCombo(), p.Chown, md, p.ModeStr, ut, p.UtimeFar, p.Dst)
 	return r
 }
+
+// src9Free: the names of the mount points are not taken.
+func src9Free(t *tree.Tree) bool { return t.Get("zm1") == nil && t.Get("zm2") == nil }
